@@ -262,11 +262,32 @@ def r05g(F):
 		out.append(Result('05.g', False, 'anchor:no_further_updates_allowed-table', 'no_further_updates_allowed is no longer a small boolean function', where=F.where(nf.name)))
 	else:
 		import itertools
+		def leaves(e, acc):
+			while e[0] in ('ref', 'deref', 'cast'):
+				e = e[1]
+			if e[0] == 'bin' and e[1] in ('BitOr', 'BitAnd', 'Eq', 'Ne', 'BitXor'):
+				leaves(e[2], acc); leaves(e[3], acc)
+			elif e[0] == 'un':
+				leaves(e[2], acc)
+			elif e[0] != 'const':
+				acc.add(leaf_key(e))
+			return acc
+		def ev(e, asg):
+			while e[0] in ('ref', 'deref', 'cast'):
+				e = e[1]
+			if e[0] == 'const':
+				return bool(e[1])
+			if e[0] == 'un':
+				return not ev(e[2], asg)
+			if e[0] == 'bin' and e[1] in ('BitOr', 'BitAnd', 'Eq', 'Ne', 'BitXor'):
+				a, b = ev(e[2], asg), ev(e[3], asg)
+				return {'BitOr': a or b, 'BitAnd': a and b, 'Eq': a == b, 'Ne': a != b, 'BitXor': a != b}[e[1]]
+			return bool(asg.get(leaf_key(e)))
 		keys = set()
 		for conds, ret in rows:
 			keys |= set(conds)
-			if ret is not None and ret[0] != 'const':
-				keys.add(leaf_key(ret))
+			if ret is not None:
+				leaves(ret, keys)
 		keys = sorted(keys)
 		def flag_of(k):
 			for w in want:
@@ -290,12 +311,7 @@ def r05g(F):
 						elif c != v:
 							okr = False
 					if okr:
-						if ret is None:
-							res = None
-						elif ret[0] == 'const':
-							res = bool(ret[1])
-						else:
-							res = bool(asg.get(leaf_key(ret)))
+						res = None if ret is None else ev(ret, asg)
 						break
 				if res is not True:
 					bad.append({k.rsplit('.', 1)[-1]: v for k, v in asg.items()})
